@@ -148,6 +148,15 @@ class Interner:
         return out
 
 
+def _printed_phys(run):
+    """the printed --list-outputs paths as the recorder resolved them (os.path.realpath(os.path.join(cwd, printed)) while the run's directory and
+    the links of its spelling still existed); resolving them here, after the sandbox is gone, would silently fall back to text"""
+    pp = run.get("printed_phys")
+    if pp is None or len(pp) != len(run.get("printed") or []):
+        raise MachineryFailure("run %s: printed list without its resolved form" % run.get("test"))
+    return list(pp)
+
+
 def to_record(run, rid, listed=None, snap=None):
     it = Interner()
     od = run.get("outdir")
@@ -179,9 +188,9 @@ def to_record(run, rid, listed=None, snap=None):
             for p in r:
                 if p not in rep:
                     rep.append(p)
-    printed = None
+    printed = None   # as the build system would use the list: every printed path resolved by the OS from the run's cwd, never normalised as text
     if run.get("printed") is not None and run.get("mode") == "list_outputs":
-        printed = [os.path.realpath(os.path.join(run.get("cwd") or "/", x.strip())) for x in run["printed"]]
+        printed = _printed_phys(run)
     fm = run.get("fm")
     return {
         "id": rid, "ep": run["ep"], "mode": run["mode"], "hasod": bool(od), "od": it.comps(od) if od else [], "ovw": bool(run.get("ovw", True)),
@@ -215,7 +224,7 @@ SCRATCH_NS = {
     "vfroot/other/Uni.0.1.dsdl": "@union\nuint8 x\nfloat32 y\n@sealed\n",
 }
 LANGS = ["c", "cpp", "py", "html"]
-SPELLINGS = ["abs", "rel", "dotdot", "slash"]
+SPELLINGS = ["abs", "rel", "dotdot", "slash", "linkdotdot"]   # linkdotdot: lnk/../out with lnk -> deep/inner, physically deep/out
 SUPPORT = [("as-needed", False), ("always", False), ("never", False), ("only", False), ("as-needed", True), ("never", True), ("only", True)]
 
 
@@ -224,7 +233,7 @@ def _scenarios(ctx):
     scen = []
     for i in range(n):
         lang = LANGS[i % 4]
-        spell = SPELLINGS[(i // 4 + i) % 4]
+        spell = SPELLINGS[(i // 4 + i % 4) % len(SPELLINGS)]     # every target meets every spelling
         gs, omit = SUPPORT[(i * 3 + i // 7) % len(SUPPORT)]
         fx = FIXTURES[(i * 5 + i // 8) % len(FIXTURES)]
         fm1, fm2 = [("0o444", "0o644"), (None, "0o600"), ("0o640", None), ("0o444", "0o444")][(i // 2) % 4]
@@ -233,6 +242,7 @@ def _scenarios(ctx):
                      "fm1": fm1, "fm2": fm2, "prog": prog, "nstypes": (i % 5) == 3 and lang in ("py", "html")})
     for i, lang in enumerate(["c", "py", "cpp", "html"][:ctx.pick(2, 4)]):
         scen.append({"sid": "a%03d" % i, "kind": "api", "lang": lang, "root": FIXTURES[i][0], "lookup": FIXTURES[i][1], "spell": SPELLINGS[i % 4]})
+    scen.append({"sid": "a900", "kind": "api", "lang": "c", "root": FIXTURES[1][0], "lookup": FIXTURES[1][1], "spell": "linkdotdot"})
     for i, lang in enumerate(["c", "cpp"][:ctx.pick(1, 2)]):
         scen.append({"sid": "c%03d" % i, "kind": "copy", "lang": lang, "root": "@scratch", "lookup": [], "spell": "abs"})
     return scen
@@ -287,7 +297,7 @@ def _worker_main(jobfile):
                     st = os.lstat(p)
                 except OSError:
                     continue
-                res[os.path.realpath(p)] = (st.st_mode, st.st_size, st.st_mtime_ns, st.st_ino)
+                res[os.path.join(os.path.realpath(dp), n)] = (st.st_mode, st.st_size, st.st_mtime_ns, st.st_ino)
         return res
 
     def bracket(case, root, fn):
@@ -304,6 +314,7 @@ def _worker_main(jobfile):
         finally:
             sys.stdout, sys.stderr = so, se
         after = snap(root)
+        # the walk starts at the physical sandbox and does not follow links: its paths are physical identities like the recorder's
         created = sorted(p for p in after if p not in before and not os.path.isdir(p))
         removed = sorted(p for p in before if p not in after)
         changed = sorted(p for p in after if p in before and after[p] != before[p] and not os.path.isdir(p))
@@ -313,6 +324,9 @@ def _worker_main(jobfile):
     for sc in job["scenarios"]:
         sand = os.path.join(job["sandbox"], sc["sid"])
         os.makedirs(os.path.join(sand, "sub"), exist_ok=True)
+        os.makedirs(os.path.join(sand, "deep", "inner"), exist_ok=True)
+        if not os.path.lexists(os.path.join(sand, "lnk")):
+            os.symlink(os.path.join("deep", "inner"), os.path.join(sand, "lnk"))
         os.chdir(sand)
         if sc["root"] == "@scratch":
             for rel, text in SCRATCH_NS.items():
@@ -324,7 +338,8 @@ def _worker_main(jobfile):
         else:
             root = os.path.join(repo, sc["root"])
         lookups = [os.path.join(repo, x) for x in sc["lookup"]]
-        outdir = {"abs": os.path.join(sand, "out"), "rel": "out", "dotdot": os.path.join("sub", "..", "out"), "slash": os.path.join(sand, "out") + os.sep}[sc["spell"]]
+        outdir = {"abs": os.path.join(sand, "out"), "rel": "out", "dotdot": os.path.join("sub", "..", "out"), "slash": os.path.join(sand, "out") + os.sep,
+                  "linkdotdot": os.path.join("lnk", "..", "out")}[sc["spell"]]
         if sc["kind"] == "cli":
             import nunavut.cli
 
@@ -418,7 +433,7 @@ def _listed_for(runs_by_case):
         if case.endswith(":generate"):
             twin = runs_by_case.get(case[:-len("generate")] + "list_outputs")
             if twin is not None and twin.get("exc") is None and twin.get("printed") is not None:
-                res[case] = [os.path.realpath(os.path.join(twin.get("cwd") or "/", x.strip())) for x in twin["printed"]]
+                res[case] = _printed_phys(twin)
     return res
 
 
